@@ -162,6 +162,14 @@ def check_stop(ctx, case):
         else:
             wc += "-norebalancing"
             site = S_SUB
+    if st == "dimwise" and kind == "hat" and cfg["opts"].get("rebalancing", True):
+        # the d-linear corner functions (all levels 0) are integrated exactly by the trapezoidal rule on ANY point set with boundary points -- also after a
+        # rebalancing rotation (which only re-levels points): they are judged apart from the re-levelling finding (missed seed C04_8: weights cached by level sequence)
+        is_corner = lambda c_: isinstance(c_, list) and c_ and c_[0] == "hat" and all(k == 0 for k in c_[1])  # noqa
+        bad_corner = [x for x in bad if is_corner(x[1])]
+        ctx.check(clause_main, not bad_corner, S_DW, "dimwise-rebalancing-multilinear", "%d d-linear functions lost after %d evaluations, e.g. (index, function, reported, analytic) %s"
+                  % (len(bad_corner), len(r[5]), bad_corner[:3]))
+        bad = [x for x in bad if not is_corner(x[1])]
     ctx.check(clause_main, not bad, site, wc, "%d of %d exact functions lost after %d evaluations, e.g. (index, function, reported, analytic) %s"
               % (len(bad), nb, len(r[5]), bad[:3]))
     badc = [(i, float(got[i]), float(exact[i])) for i in range(nb, len(exact)) if not close(got[i], exact[i], rel=1e-10, abs_=1e-13)]
